@@ -25,8 +25,16 @@ LEVEL = "exploration"
 WF = {
     "W1": {"nodes": [{"name": "WA", "inputs": {"a": ["lit", "x"]}}, {"name": "WB", "inputs": {"a": ["node", "WA"]}}], "out": ["WB"]},
     "W2": {"nodes": [{"name": "WA", "inputs": {"a": ["lit", "x"]}}, {"name": "WC", "inputs": {"a": ["node", "WA"]}}], "out": ["WC"]},
+    # the same (slow) job identity at two nesting levels of one workflow: both are in flight at the same time
+    # under the process-pool worker, and must still share a single execution
+    "W3": {"nodes": [{"name": "N1", "tag": "WS", "sleep": 0.4, "inputs": {"a": ["lit", "x"]}},
+                     {"name": "N2", "kind": "W", "inputs": {"a": ["lit", "x"]},
+                      "sub": {"nodes": [{"name": "S1", "tag": "WS", "sleep": 0.4, "inputs": {"a": ["wfin", "a"]}}], "out": ["S1"]}},
+                     {"name": "N3", "tag": "WE", "inputs": {"a": ["node", "N1"], "b": ["node", "N2"]}}], "out": ["N3"]},
 }
-NODES = {"W1": ["WA(a=x)", "WB(a=WA(a=x))"], "W2": ["WA(a=x)", "WC(a=WA(a=x))"]}
+NODES = {"W1": ["WA(a=x)", "WB(a=WA(a=x))"], "W2": ["WA(a=x)", "WC(a=WA(a=x))"],
+         "W3": ["WS(a=x)", "WE(a=WS(a=x),b=WS(a=x))"]}
+DUP = {"W3": {"WS(a=x)": 2}}     # identities that occur twice inside one submission
 TASKS = {"T1": "T1(a=1)", "T2": "T2(a=2)", "T3": "T3(a=3)"}
 
 
@@ -129,13 +137,19 @@ def decide(case, wctx):
                         want[n] = 1
                         complete["main"].add(n)
                 complete["main"].add(name)
+        # an identity occurring twice in one submission is re-executed per occurrence only when rerun propagates
+        slack = {k: n for k, n in DUP.get(name, {}).items() if k in want and op["rerun"] and op["propagate"]}
+        if all(want.get(k, 0) <= starts.get(k, 0) <= slack.get(k, want.get(k, 0)) for k in set(want) | set(starts)):
+            starts_cmp = want
+        else:
+            starts_cmp = starts
         steps.append({"op": op, "starts": starts, "expected": want, "err": err})
         if err:
             problems.append({"step": si, "why": "submission failed", "error": err})
             break
         if out != expected_out(name):
             problems.append({"step": si, "why": "wrong output", "got": out, "expected": expected_out(name)})
-        if starts != want:
+        if starts_cmp != want:
             kind = ("executed although a complete result was available" if any(starts.get(k, 0) > want.get(k, 0) for k in starts)
                     else "not executed although rerun was requested / no result existed")
             shadow = [k for k in starts if starts[k] > want.get(k, 0) and k in planted_shadow
@@ -178,7 +192,7 @@ def case_one(case, wctx):
 
 
 def gen_case(rng):
-    pool = ["T1", "T2", "T3", "W1", "W2"]
+    pool = ["T1", "T2", "T3", "W1", "W2", "W3"]
     pre = {"R1": rng.sample(pool, rng.randint(0, 3)), "R2": rng.sample(pool, rng.randint(0, 2))}
     ops = []
     for _ in range(rng.randint(3, 8)):
@@ -188,6 +202,8 @@ def gen_case(rng):
             ops.append({"op": "submit", "task": rng.choice(pool), "rerun": rng.random() < 0.25, "propagate": rng.random() < 0.6,
                         "readonly": sorted(rng.sample(["R1", "R2"], rng.randint(0, 2))),
                         "worker": "cf" if rng.random() < 0.1 else "debug"})
+            if ops[-1]["task"] == "W3":
+                ops[-1]["worker"] = "cf"
     return {"prepopulate": pre, "ops": ops}
 
 
